@@ -310,9 +310,16 @@ def tag_kind(case, t, nm=None):
     for u in case["units"]:
         for k, d in u["defs"].items():
             if d["tag"] == t:
-                return (("shared-" if u["kind"] == "lib" else "") + d["st"] + ("" if d["vis"] == "default" else f"({d['vis']})")
-                        + ("(lazy-member)" if u["kind"] == "mem" and not u["forced"] else ""))
+                return ("shared-" if u["kind"] == "lib" else "") + d["st"]
     return "garbage"
+
+
+def tag_unit(case, t):
+    for u in case["units"]:
+        for k, d in u["defs"].items():
+            if d["tag"] == t:
+                return u
+    return None
 
 
 def one_case(ctx, ci, forced=None):
@@ -394,7 +401,10 @@ def one_case(ctx, ci, forced=None):
         if isinstance(exp, tuple):
             if ok:
                 rr = xlink.runprog(out, libdirs=libdirs)
-                LIM.violation(f"accept:{exp[1]}:defs={name_kinds(case, exp[2], set(range(99)))}:wild-links",
+                nk = name_kinds(case, exp[2], set(range(99)))
+                if exp[1] == "duplicate" and "unique" in nk:
+                    nk = "gnu-unique-not-treated-as-strong"
+                LIM.violation(f"accept:{exp[1]}:defs={nk}:wild-links",
                               f"model, GNU ld and lld reject the link ({exp[1]} of {exp[2]}) but wild ({tag}) links it; program prints "
                               f"{rr.outtext()[:200]!r}", case=ci, files=rec.files(), info={"ld_stderr": ld[2].errtext()[:600]})
                 bad = True
@@ -431,7 +441,19 @@ def one_case(ctx, ci, forced=None):
                 typ = next(n["typ"] for n in case["names"] if n["name"] == nm)
                 ka = tag_kind(case, a, nm) if a is not None else "no-line"
                 kb = tag_kind(case, b, nm) if b is not None else "no-line"
-                sigs.setdefault(f"binding:{ka}-vs-{kb}:{typ}:wild={kb}" + (":viewer=shared-library" if u["kind"] == "lib" else ""), label)
+                ref = "own-def" if nm in u["defs"] else ("weak" if u["refs"][nm]["weak"] else "strong")
+                sig = f"binding:ref={ref}:expected={ka}:wild={kb}"
+                if ka == "unique":      # one family: STB_GNU_UNIQUE ranked like weak instead of like strong
+                    sig = f"binding:gnu-unique-ranked-as-weak:expected=unique:wild={kb}"
+                pos = cmd_positions(case)
+                wu = tag_unit(case, a) if a not in (None, 0, -1) else None
+                if wu is not None and wu["kind"] != "lib" and any(
+                        x["kind"] == "mem" and x["idx"] not in exp["loaded"] and nm in x["defs"] and pos[x["idx"]] < pos[wu["idx"]]
+                        for x in case["units"]):
+                    sig = f"binding:ref={ref}:wild={kb}:earlier-unloaded-archive-member-defines-name"
+                if u["kind"] == "lib":
+                    sig += ":viewer=shared-library"
+                sigs.setdefault(sig, label)
             for sig, label in sigs.items():
                 LIM.violation(sig, f"{label}: model/ld/lld observe {exp['lines'].get(label)}, wild ({tag}) program observes {t.get(label)}",
                               case=ci, files=rec.files(), info={"expected": exp["lines"], "wild": t, "schedule": tag})
@@ -474,6 +496,11 @@ def pinned_cases():
         dict(base, order=[0, 1, "M"], units=[unit(0, defs={"s0": D("unique", 101)}), unit(1, defs={"s0": D("unique", 102)})]),
         dict(base, order=[0, 1, 2, "M"], units=[unit(0, defs={"s0": D("weak", 101)}), unit(1, defs={"s0": D("common", 0, size=2)}),
                                                  unit(2, defs={"s0": D("common", 0, size=8)}, refs={})]),
+        # a weak reference must see the definition in a loaded member even when an earlier, unloaded member defines the name too
+        dict(base, names=[dict(name="s0", typ="func"), dict(name="s1", typ="func")], order=[2, "M", "A0", "A1"], units=[
+            dict(unit(0, kind="mem", defs={"s0": D("strong", 101)}, forced=False), archive=0),
+            dict(unit(1, kind="mem", defs={"s0": D("strong", 102), "s1": D("strong", 103)}, forced=False), archive=1),
+            unit(2, refs={"s0": dict(weak=True, vis="default"), "s1": R})]),
     ]
 
 
@@ -487,7 +514,7 @@ def main(ctx):
     ctx.assumptions = ["GNU ld 2.40 and ld.lld 14 calibrate the model; any disagreement is inconclusive",
                        "GNU-unique outside COMDAT is treated as strong, as both reference linkers do"]
     tools.wild()
-    n = ctx.pick(90, 3000)
+    n = ctx.pick(60, 2500)
     jobs = [f"pinned{i}" for i in range(len(pinned_cases()))] + list(range(n))
     if ctx.replay is not None:
         c = str(ctx.replay["case"])
